@@ -248,6 +248,8 @@ def _ctor_int(x=0, base=None):
         return _b.int(x, base)
     if isinstance(x, SymInt):
         return x
+    if hasattr(x, '__symint__'):
+        return x.__symint__()
     if isinstance(x, SymBool):
         return wrapint(toint(x))
     if isinstance(x, SymFloat):
